@@ -1,11 +1,665 @@
-//! Sinks, sources and pipes instances (ops `sink`, `fin`, `pull`, `peek`, … and `new <id> src|sink|pipe …`).
+//! Sources (C10), sinks (C11) and pipes (C01): dynamic trees built out of the *real* generic adapters
+//! (`Take<BoxSrc>`, `Chain<BoxSrc, BoxSrc>`, `Pipe<Dyn, Dyn>`, …).
+use crate::filt::{self, Inst};
+use crate::q::Q;
+use crate::val::*;
+use signalo_pipes::{pipe::Pipe, unit_pipe::UnitPipe};
+use signalo_sinks as sinks;
+use signalo_sources as sources;
+use signalo_traits::{Filter, Finalize, Sink, Source};
+use std::cell::RefCell;
+use std::collections::HashMap;
+use std::rc::Rc;
+
+// ---- sources ----------------------------------------------------------------------------------
+
+pub trait DynSource {
+    fn pull(&mut self) -> Option<Q>;
+    fn clone_box(&self) -> Box<dyn DynSource>;
+}
+impl<S> DynSource for S
+where
+    S: Source<Output = Q> + Clone + 'static,
+{
+    fn pull(&mut self) -> Option<Q> {
+        self.source()
+    }
+    fn clone_box(&self) -> Box<dyn DynSource> {
+        Box::new(self.clone())
+    }
+}
+pub struct BoxSrc(pub Box<dyn DynSource>);
+impl Clone for BoxSrc {
+    fn clone(&self) -> Self {
+        BoxSrc(self.0.clone_box())
+    }
+}
+impl Source for BoxSrc {
+    type Output = Q;
+    fn source(&mut self) -> Option<Q> {
+        self.0.pull()
+    }
+}
+fn bx<S: Source<Output = Q> + Clone + 'static>(s: S) -> BoxSrc {
+    BoxSrc(Box::new(s))
+}
+
+struct P<'a> {
+    s: &'a [u8],
+    i: usize,
+}
+impl<'a> P<'a> {
+    fn eat(&mut self, lit: &str) -> bool {
+        if self.s[self.i..].starts_with(lit.as_bytes()) {
+            self.i += lit.len();
+            true
+        } else {
+            false
+        }
+    }
+    fn expect(&mut self, c: u8) {
+        assert!(self.i < self.s.len() && self.s[self.i] == c, "harness: source expression syntax");
+        self.i += 1;
+    }
+    fn tok(&mut self) -> String {
+        let st = self.i;
+        while self.i < self.s.len() && !matches!(self.s[self.i], b',' | b')' | b']') {
+            self.i += 1;
+        }
+        String::from_utf8(self.s[st..self.i].to_vec()).unwrap()
+    }
+    fn q(&mut self) -> Q {
+        Q::from_val(parse_val(&self.tok()))
+    }
+    fn n(&mut self) -> usize {
+        self.tok().parse().expect("harness: bad count")
+    }
+    fn expr(&mut self) -> BoxSrc {
+        if self.eat("iter[") {
+            let mut v = Vec::new();
+            loop {
+                if self.s[self.i] == b']' {
+                    self.i += 1;
+                    break;
+                }
+                if self.s[self.i] == b',' {
+                    self.i += 1;
+                    continue;
+                }
+                v.push(self.q());
+            }
+            bx(sources::from_iter::FromIter::from(v))
+        } else if self.eat("const(") {
+            let v = self.q();
+            self.expect(b')');
+            bx(sources::constant::Constant::new(v))
+        } else if self.eat("incr(") {
+            let a = self.q();
+            self.expect(b',');
+            let b = self.q();
+            self.expect(b')');
+            bx(sources::increment::Increment::new(a, b))
+        } else if self.eat("take(") {
+            let n = self.n();
+            self.expect(b',');
+            let e = self.expr();
+            self.expect(b')');
+            bx(sources::take::Take::new(e, n))
+        } else if self.eat("skip(") {
+            let n = self.n();
+            self.expect(b',');
+            let e = self.expr();
+            self.expect(b')');
+            bx(sources::skip::Skip::new(e, n))
+        } else if self.eat("chain(") {
+            let a = self.expr();
+            self.expect(b',');
+            let b = self.expr();
+            self.expect(b')');
+            bx(sources::chain::Chain::new(a, b))
+        } else if self.eat("cycle(") {
+            let e = self.expr();
+            self.expect(b')');
+            bx(sources::cycle::Cycle::new(e))
+        } else if self.eat("repeat(") {
+            let v = self.q();
+            self.expect(b',');
+            let n = self.n();
+            self.expect(b')');
+            bx(sources::repeat::Repeat::new(v, n))
+        } else if self.eat("padc(") {
+            let v = self.q();
+            self.expect(b',');
+            let n = self.n();
+            self.expect(b',');
+            let e = self.expr();
+            self.expect(b')');
+            bx(sources::pad::constant::Pad::new(e, v, n))
+        } else if self.eat("pade(") {
+            let n = self.n();
+            self.expect(b',');
+            let e = self.expr();
+            self.expect(b')');
+            bx(sources::pad::edge::Pad::new(e, n))
+        } else if self.eat("cache(") {
+            let e = self.expr();
+            self.expect(b')');
+            bx(sources::cache::Cache::<BoxSrc, Q>::from(e))
+        } else if self.eat("rt(") {
+            let e = self.expr();
+            self.expect(b')');
+            // a source turned into an iterator and back into a source
+            let it = sources::into_iter::IntoIter::from(e);
+            bx(RtSrc(Rc::new(RefCell::new(sources::from_iter::FromIter::from(it)))))
+        } else {
+            panic!("harness: unknown source expression at {}", self.i)
+        }
+    }
+}
+
+/// `FromIter<IntoIter<BoxSrc>>` is not `Clone` (the library's `IntoIter` is not); share it instead.
+/// Only used below adapters that never clone their inner source (the generator never puts `rt` under `cycle`).
+#[derive(Clone)]
+struct RtSrc(Rc<RefCell<sources::from_iter::FromIter<sources::into_iter::IntoIter<BoxSrc>>>>);
+impl Source for RtSrc {
+    type Output = Q;
+    fn source(&mut self) -> Option<Q> {
+        self.0.borrow_mut().source()
+    }
+}
+
+pub fn parse_src(s: &str) -> BoxSrc {
+    let mut p = P { s: s.as_bytes(), i: 0 };
+    let e = p.expr();
+    assert!(p.i == s.len(), "harness: trailing characters in source expression");
+    e
+}
+
+enum SrcTop {
+    Plain(BoxSrc),
+    Peek(sources::peek::Peek<BoxSrc, Q>),
+    Cache(sources::cache::Cache<BoxSrc, Q>),
+}
+
+// ---- sinks ------------------------------------------------------------------------------------
+
+pub trait DynSink {
+    fn sink(&mut self, x: Q);
+    fn ff(&mut self, x: Q) -> String;
+    fn fin(&self) -> String;
+    fn clone_box(&self) -> Box<dyn DynSink>;
+}
+
+impl<T: Render> Render for sinks::bounds::Output<T> {
+    fn r(&self) -> String {
+        format!("{} {}", self.min.r(), self.max.r())
+    }
+}
+impl<T: Render> Render for sinks::mean_variance::Output<T> {
+    fn r(&self) -> String {
+        format!("{} {}", self.mean.r(), self.variance.r())
+    }
+}
+impl<T: Render> Render for sinks::statistics::Output<T> {
+    fn r(&self) -> String {
+        format!("{} {} {} {}", self.min.r(), self.max.r(), self.mean.r(), self.variance.r())
+    }
+}
+
+macro_rules! dyn_sink {
+    ($ty:ty) => {
+        impl DynSink for $ty {
+            fn sink(&mut self, x: Q) {
+                Sink::sink(self, x)
+            }
+            fn ff(&mut self, x: Q) -> String {
+                Filter::filter(self, x).r()
+            }
+            fn fin(&self) -> String {
+                Finalize::finalize(self.clone()).r()
+            }
+            fn clone_box(&self) -> Box<dyn DynSink> {
+                Box::new(self.clone())
+            }
+        }
+    };
+}
+dyn_sink!(sinks::min::Min<Q>);
+dyn_sink!(sinks::max::Max<Q>);
+dyn_sink!(sinks::bounds::Bounds<Q>);
+dyn_sink!(sinks::integrate::Integrate<Q>);
+dyn_sink!(sinks::mean::Mean<Q>);
+dyn_sink!(sinks::mean_variance::MeanVariance<Q>);
+dyn_sink!(sinks::statistics::Statistics<Q>);
+impl DynSink for sinks::collect::Collect<Vec<Q>> {
+    fn sink(&mut self, x: Q) {
+        Sink::sink(self, x)
+    }
+    fn ff(&mut self, x: Q) -> String {
+        Filter::filter(self, x).r()
+    }
+    fn fin(&self) -> String {
+        Finalize::finalize(self.clone()).r()
+    }
+    fn clone_box(&self) -> Box<dyn DynSink> {
+        Box::new(self.clone())
+    }
+}
+impl DynSink for sinks::last::Last<Q> {
+    fn sink(&mut self, x: Q) {
+        Sink::sink(self, x)
+    }
+    fn ff(&mut self, _x: Q) -> String {
+        panic!("harness: Last is not a Filter")
+    }
+    fn fin(&self) -> String {
+        Finalize::finalize(self.clone()).r()
+    }
+    fn clone_box(&self) -> Box<dyn DynSink> {
+        Box::new(self.clone())
+    }
+}
+
+pub fn build_sink(kind: &str) -> Option<Box<dyn DynSink>> {
+    Some(match kind {
+        "sink_min" => Box::new(sinks::min::Min::<Q>::default()),
+        "sink_max" => Box::new(sinks::max::Max::<Q>::default()),
+        "sink_bounds" => Box::new(sinks::bounds::Bounds::<Q>::default()),
+        "sink_last" => Box::new(sinks::last::Last::<Q>::default()),
+        "sink_integrate" => Box::new(sinks::integrate::Integrate::<Q>::default()),
+        "sink_mean" => Box::new(sinks::mean::Mean::<Q>::default()),
+        "sink_meanvar" => Box::new(sinks::mean_variance::MeanVariance::<Q>::default()),
+        "sink_stats" => Box::new(sinks::statistics::Statistics::<Q>::default()),
+        "sink_collect" => Box::new(sinks::collect::Collect::<Vec<Q>>::default()),
+        _ => return None,
+    })
+}
+
+// ---- pipes ------------------------------------------------------------------------------------
+
+type Log = Rc<RefCell<Vec<Vec<Q>>>>;
+
+/// a probe stage: a real filter plus a record of every input it was invoked with
+pub struct Probe {
+    inner: Box<dyn Inst>,
+    idx: usize,
+    log: Log,
+}
+impl Filter<Q> for Probe {
+    type Output = Q;
+    fn filter(&mut self, x: Q) -> Q {
+        self.log.borrow_mut()[self.idx].push(x);
+        let r = self.inner.f(&[Val::Q(x)]);
+        Q::from_val(parse_val(&r))
+    }
+}
+
+pub enum Dyn {
+    Leaf(Probe),
+    Unit(Box<UnitPipe<Dyn>>),
+    Pipe(Box<Pipe<Dyn, Dyn>>),
+    /// built with `|` from a `Pipe` / a `UnitPipe` on the left
+    OrPipe(Box<Pipe<Pipe<Dyn, Dyn>, Dyn>>),
+    OrUnit(Box<Pipe<UnitPipe<Dyn>, Dyn>>),
+}
+impl Filter<Q> for Dyn {
+    type Output = Q;
+    fn filter(&mut self, x: Q) -> Q {
+        match self {
+            Dyn::Leaf(p) => p.filter(x),
+            Dyn::Unit(u) => u.filter(x),
+            Dyn::Pipe(p) => p.filter(x),
+            Dyn::OrPipe(p) => p.filter(x),
+            Dyn::OrUnit(p) => p.filter(x),
+        }
+    }
+}
+
+pub enum SDyn {
+    Src(BoxSrc),
+    Unit(Box<UnitPipe<SDyn>>),
+    Pipe(Box<Pipe<SDyn, Dyn>>),
+    OrPipe(Box<Pipe<Pipe<SDyn, Dyn>, Dyn>>),
+    OrUnit(Box<Pipe<UnitPipe<SDyn>, Dyn>>),
+}
+impl Source for SDyn {
+    type Output = Q;
+    fn source(&mut self) -> Option<Q> {
+        match self {
+            SDyn::Src(s) => s.source(),
+            SDyn::Unit(u) => u.source(),
+            SDyn::Pipe(p) => p.source(),
+            SDyn::OrPipe(p) => p.source(),
+            SDyn::OrUnit(p) => p.source(),
+        }
+    }
+}
+
+pub struct SinkLeaf(Box<dyn DynSink>);
+impl Sink<Q> for SinkLeaf {
+    fn sink(&mut self, x: Q) {
+        self.0.sink(x)
+    }
+}
+impl Finalize for SinkLeaf {
+    type Output = String;
+    fn finalize(self) -> String {
+        self.0.fin()
+    }
+}
+
+pub enum KDyn {
+    Snk(SinkLeaf),
+    Unit(Box<UnitPipe<KDyn>>),
+    Pipe(Box<Pipe<Dyn, KDyn>>),
+    OrPipe(Box<Pipe<Pipe<Dyn, Dyn>, KDyn>>),
+    OrUnit(Box<Pipe<UnitPipe<Dyn>, KDyn>>),
+}
+impl Sink<Q> for KDyn {
+    fn sink(&mut self, x: Q) {
+        match self {
+            KDyn::Snk(s) => s.sink(x),
+            KDyn::Unit(u) => u.sink(x),
+            KDyn::Pipe(p) => p.sink(x),
+            KDyn::OrPipe(p) => p.sink(x),
+            KDyn::OrUnit(p) => p.sink(x),
+        }
+    }
+}
+impl Finalize for KDyn {
+    type Output = String;
+    fn finalize(self) -> String {
+        match self {
+            KDyn::Snk(s) => s.finalize(),
+            KDyn::Unit(u) => u.finalize(),
+            KDyn::Pipe(p) => p.finalize(),
+            KDyn::OrPipe(p) => p.finalize(),
+            KDyn::OrUnit(p) => p.finalize(),
+        }
+    }
+}
+
+enum Sh {
+    Leaf(usize),
+    Src,
+    Snk,
+    Unit(Box<Sh>),
+    Pipe(Box<Sh>, Box<Sh>),
+    Or(Box<Sh>, Box<Sh>),
+}
+
+fn parse_shape(p: &mut P) -> Sh {
+    if p.eat("L") {
+        let st = p.i;
+        while p.i < p.s.len() && p.s[p.i].is_ascii_digit() {
+            p.i += 1;
+        }
+        Sh::Leaf(std::str::from_utf8(&p.s[st..p.i]).unwrap().parse().unwrap())
+    } else if p.eat("S") {
+        Sh::Src
+    } else if p.eat("K") {
+        Sh::Snk
+    } else if p.eat("U(") {
+        let i = parse_shape(p);
+        p.expect(b')');
+        Sh::Unit(Box::new(i))
+    } else if p.eat("P(") {
+        let a = parse_shape(p);
+        p.expect(b',');
+        let b = parse_shape(p);
+        p.expect(b')');
+        Sh::Pipe(Box::new(a), Box::new(b))
+    } else if p.eat("O(") {
+        let a = parse_shape(p);
+        p.expect(b',');
+        let b = parse_shape(p);
+        p.expect(b')');
+        Sh::Or(Box::new(a), Box::new(b))
+    } else {
+        panic!("harness: bad pipe shape")
+    }
+}
+
+struct Parts {
+    leaves: Vec<Option<Probe>>,
+    source: Option<BoxSrc>,
+    sink: Option<Box<dyn DynSink>>,
+}
+
+fn build_dyn(sh: &Sh, parts: &mut Parts) -> Dyn {
+    match sh {
+        Sh::Leaf(i) => Dyn::Leaf(parts.leaves[*i].take().expect("harness: leaf used twice")),
+        Sh::Unit(i) => Dyn::Unit(Box::new(UnitPipe::new(build_dyn(i, parts)))),
+        Sh::Pipe(a, b) => {
+            let l = build_dyn(a, parts);
+            let r = build_dyn(b, parts);
+            Dyn::Pipe(Box::new(Pipe::new(l, r)))
+        }
+        Sh::Or(a, b) => {
+            let l = build_dyn(a, parts);
+            let r = build_dyn(b, parts);
+            match l {
+                Dyn::Pipe(p) => Dyn::OrPipe(Box::new(*p | r)),
+                Dyn::Unit(u) => Dyn::OrUnit(Box::new(*u | r)),
+                _ => panic!("harness: `|` needs a Pipe or UnitPipe on the left"),
+            }
+        }
+        _ => panic!("harness: source/sink leaf inside a filter pipe"),
+    }
+}
+fn build_sdyn(sh: &Sh, parts: &mut Parts) -> SDyn {
+    match sh {
+        Sh::Src => SDyn::Src(parts.source.take().expect("harness: no source")),
+        Sh::Unit(i) => SDyn::Unit(Box::new(UnitPipe::new(build_sdyn(i, parts)))),
+        Sh::Pipe(a, b) => {
+            let l = build_sdyn(a, parts);
+            let r = build_dyn(b, parts);
+            SDyn::Pipe(Box::new(Pipe::new(l, r)))
+        }
+        Sh::Or(a, b) => {
+            let l = build_sdyn(a, parts);
+            let r = build_dyn(b, parts);
+            match l {
+                SDyn::Pipe(p) => SDyn::OrPipe(Box::new(*p | r)),
+                SDyn::Unit(u) => SDyn::OrUnit(Box::new(*u | r)),
+                _ => panic!("harness: `|` needs a Pipe or UnitPipe on the left"),
+            }
+        }
+        _ => panic!("harness: bad source pipe shape"),
+    }
+}
+fn build_kdyn(sh: &Sh, parts: &mut Parts) -> KDyn {
+    match sh {
+        Sh::Snk => KDyn::Snk(SinkLeaf(parts.sink.take().expect("harness: no sink"))),
+        Sh::Unit(i) => KDyn::Unit(Box::new(UnitPipe::new(build_kdyn(i, parts)))),
+        Sh::Pipe(a, b) => {
+            let l = build_dyn(a, parts);
+            let r = build_kdyn(b, parts);
+            KDyn::Pipe(Box::new(Pipe::new(l, r)))
+        }
+        Sh::Or(a, b) => {
+            let l = build_dyn(a, parts);
+            let r = build_kdyn(b, parts);
+            match l {
+                Dyn::Pipe(p) => KDyn::OrPipe(Box::new(*p | r)),
+                Dyn::Unit(u) => KDyn::OrUnit(Box::new(*u | r)),
+                _ => panic!("harness: `|` needs a Pipe or UnitPipe on the left"),
+            }
+        }
+        _ => panic!("harness: bad sink pipe shape"),
+    }
+}
+
+enum PipeTop {
+    F(Dyn),
+    S(SDyn),
+    K(Option<KDyn>),
+}
+struct PipeInst {
+    top: PipeTop,
+    log: Log,
+    /// operations replayed into a clone-free `finalize`: sinks are finalised by rebuilding
+    fed: Vec<Q>,
+    line: String,
+}
+
+// ---- the table --------------------------------------------------------------------------------
+
 #[derive(Default)]
-pub struct Other {}
+pub struct Other {
+    srcs: HashMap<u32, SrcTop>,
+    sinks: HashMap<u32, Box<dyn DynSink>>,
+    pipes: HashMap<u32, PipeInst>,
+}
+
+fn id(s: &str) -> u32 {
+    s.parse().expect("harness: bad instance id")
+}
+
+fn build_pipe(line: &str) -> PipeInst {
+    let toks: Vec<&str> = line.split_whitespace().collect();
+    let kv = filt::parse_kv(&toks[3..]);
+    let shape_s = kv.get("shape").expect("harness: pipe without shape");
+    let mut p = P { s: shape_s.as_bytes(), i: 0 };
+    let sh = parse_shape(&mut p);
+    let leaves_s = kv.get("leaves").map(|s| s.as_str()).unwrap_or("-");
+    let log: Log = Rc::new(RefCell::new(Vec::new()));
+    let mut leaves = Vec::new();
+    if leaves_s != "-" {
+        for (idx, l) in leaves_s.split('|').enumerate() {
+            let parts: Vec<&str> = l.split(';').collect();
+            let lkv = filt::parse_kv(&parts[1..]);
+            log.borrow_mut().push(Vec::new());
+            leaves.push(Some(Probe { inner: filt::build(parts[0], &lkv), idx, log: log.clone() }));
+        }
+    }
+    let mut parts = Parts {
+        leaves,
+        source: kv.get("source").map(|s| parse_src(s)),
+        sink: kv.get("sink").map(|s| build_sink(s).expect("harness: unknown sink kind")),
+    };
+    let top = if parts.source.is_some() {
+        PipeTop::S(build_sdyn(&sh, &mut parts))
+    } else if parts.sink.is_some() {
+        PipeTop::K(Some(build_kdyn(&sh, &mut parts)))
+    } else {
+        PipeTop::F(build_dyn(&sh, &mut parts))
+    };
+    PipeInst { top, log, fed: Vec::new(), line: line.to_string() }
+}
 
 impl Other {
-    pub fn clear(&mut self) {}
+    pub fn clear(&mut self) {
+        self.srcs.clear();
+        self.sinks.clear();
+        self.pipes.clear();
+    }
+
     /// `Some(result)` if the line is one of this module's operations
-    pub fn exec(&mut self, _toks: &[&str], _line: &str) -> Option<String> {
-        None
+    pub fn exec(&mut self, toks: &[&str], line: &str) -> Option<String> {
+        match toks[0] {
+            "new" if toks.len() >= 3 => match toks[2] {
+                "src" => {
+                    self.srcs.insert(id(toks[1]), SrcTop::Plain(parse_src(toks[3])));
+                    Some("ok".into())
+                }
+                "peek" => {
+                    self.srcs.insert(id(toks[1]), SrcTop::Peek(sources::peek::Peek::from(parse_src(toks[3]))));
+                    Some("ok".into())
+                }
+                "scache" => {
+                    self.srcs.insert(id(toks[1]), SrcTop::Cache(sources::cache::Cache::from(parse_src(toks[3]))));
+                    Some("ok".into())
+                }
+                "pipe" => {
+                    self.pipes.insert(id(toks[1]), build_pipe(line));
+                    Some("ok".into())
+                }
+                k => build_sink(k).map(|s| {
+                    self.sinks.insert(id(toks[1]), s);
+                    "ok".to_string()
+                }),
+            },
+            "pull" => {
+                let s = self.srcs.get_mut(&id(toks[1])).expect("harness: unknown source id");
+                Some(match s {
+                    SrcTop::Plain(b) => b.source().r(),
+                    SrcTop::Peek(p) => p.source().r(),
+                    SrcTop::Cache(c) => c.source().r(),
+                })
+            }
+            "peek" => match self.srcs.get_mut(&id(toks[1])).expect("harness: unknown source id") {
+                SrcTop::Peek(p) => Some(p.peek().cloned().r()),
+                _ => panic!("harness: peek on a source without Peek"),
+            },
+            "cached" => match self.srcs.get(&id(toks[1])).expect("harness: unknown source id") {
+                SrcTop::Cache(c) => Some(c.cached().cloned().r()),
+                _ => panic!("harness: cached on a source without Cache"),
+            },
+            "sink" => {
+                let x = Q::from_val(parse_val(toks[2]));
+                self.sinks.get_mut(&id(toks[1])).expect("harness: unknown sink id").sink(x);
+                Some("ok".into())
+            }
+            "ff" => {
+                let x = Q::from_val(parse_val(toks[2]));
+                Some(self.sinks.get_mut(&id(toks[1])).expect("harness: unknown sink id").ff(x))
+            }
+            "fin" => Some(self.sinks[&id(toks[1])].fin()),
+            "pf" => {
+                let x = Q::from_val(parse_val(toks[2]));
+                match &mut self.pipes.get_mut(&id(toks[1])).expect("harness: unknown pipe id").top {
+                    PipeTop::F(d) => Some(d.filter(x).r()),
+                    _ => panic!("harness: pf on a non-filter pipe"),
+                }
+            }
+            "ppull" => match &mut self.pipes.get_mut(&id(toks[1])).expect("harness: unknown pipe id").top {
+                PipeTop::S(d) => Some(d.source().r()),
+                _ => panic!("harness: ppull on a non-source pipe"),
+            },
+            "psink" => {
+                let x = Q::from_val(parse_val(toks[2]));
+                let p = self.pipes.get_mut(&id(toks[1])).expect("harness: unknown pipe id");
+                p.fed.push(x);
+                match &mut p.top {
+                    PipeTop::K(Some(d)) => {
+                        d.sink(x);
+                        Some("ok".into())
+                    }
+                    _ => panic!("harness: psink on a non-sink pipe"),
+                }
+            }
+            "pfin" => {
+                // `finalize` consumes the pipe; afterwards rebuild it and feed it the same samples again
+                let i = id(toks[1]);
+                let (line, fed) = {
+                    let p = &self.pipes[&i];
+                    (p.line.clone(), p.fed.clone())
+                };
+                let p = self.pipes.get_mut(&i).unwrap();
+                let r = match &mut p.top {
+                    PipeTop::K(d) => d.take().expect("harness: pipe already finalised").finalize(),
+                    _ => panic!("harness: pfin on a non-sink pipe"),
+                };
+                let mut again = build_pipe(&line);
+                if let PipeTop::K(Some(d)) = &mut again.top {
+                    for x in &fed {
+                        d.sink(*x);
+                    }
+                }
+                again.fed = fed;
+                self.pipes.insert(i, again);
+                Some(r)
+            }
+            "plog" => {
+                let p = &self.pipes[&id(toks[1])];
+                let logs = p.log.borrow();
+                if logs.is_empty() {
+                    return Some("-".into());
+                }
+                Some(logs.iter().map(|l| render_list(l.iter())).collect::<Vec<_>>().join(" | "))
+            }
+            _ => None,
+        }
     }
 }
